@@ -48,10 +48,12 @@ func clusterCheck(prop string, quick, thorough func() []Unit) {
 			us = append(us, shallow...)
 			us = append(us, feUnits(1)...)
 			us = append(us, feUnits(2, "fe-stepdown3")...)
-			return append(us, scUnit("stall-deposed3", 2))
+			us = append(us, scUnit("stall-deposed3", 2))
+			return append(us, extraInj(prop, us)...)
 		}
 		us := append(withInjection(quick(), 6, 0), feUnits(1)...)
 		us = append(us, scUnit("stall-deposed3", 2))
+		us = append(us, extraInj(prop, us)...)
 		if prop == "C08" {
 			us = append(us, feUnits(2, "fe-stepdown3")...)
 		}
@@ -91,6 +93,31 @@ func withInjection(us []Unit, n1, n2 int) []Unit {
 			out = append(out, scUnit(u.Name+"+inj", 2))
 		}
 		k++
+	}
+	return out
+}
+
+// extraInj: injection units in which a defect of this property was found (and repaired) in a scenario that is not
+// among the check's own: they stay in the check so that the defect is reported again if it ever returns.
+func extraInj(prop string, have []Unit) []Unit {
+	want := map[string][]string{
+		"C09": {"member+inj"},                           // f1bc445: a leader that is removing itself counted its own vote
+		"C07": {"snap3-dup-is+inj"},                     // 3449d62: late snapshot vs. newer configuration in the retained log
+		"C11": {"snap3-dup-is+inj", "stale-suffix+inj"}, // a7cd8ee, 8ea430b
+		"C02": {"snap3-dup-is+inj"},
+		"C12": {"stale-suffix+inj"},
+	}[prop]
+	var out []Unit
+	for _, n := range want {
+		dup := false
+		for _, u := range have {
+			if u.Name == n {
+				dup = true
+			}
+		}
+		if !dup {
+			out = append(out, scUnit(n, 1))
+		}
 	}
 	return out
 }
